@@ -67,6 +67,18 @@ def _from_expansion(expr, fn, depth=0):
         g = expr.generators[0]
         return (isinstance(expr.elt, ast.Name) and isinstance(g.target, ast.Name) and expr.elt.id == g.target.id
                 and _from_expansion(g.iter, fn, depth + 1))
+    if isinstance(expr, ast.Name) and fn is not None and expr.id in fn.params and not any(
+            isinstance(n, ast.Name) and n.id == expr.id and isinstance(n.ctx, ast.Store) for n in fn.mod.nodes(fn)):
+        sites = [(c, g) for m in _ALL_MODS for g in m.funcs.values() for c in m.nodes(g)
+                 if isinstance(c, ast.Call) and P.resolve(c, g)[0] == "func" and fn in P.resolve(c, g)[1]]
+        ok = bool(sites)
+        for c, g in sites:
+            try:
+                arg = P.bind_args(c, fn).get(expr.id)
+            except Exception:
+                arg = None
+            ok = ok and arg is not None and _from_expansion(arg, g, depth + 1)
+        return ok
     if isinstance(expr, ast.Name) and fn is not None:
         for n in fn.mod.nodes(fn):
             if isinstance(n, ast.Assign) and len(n.targets) == 1 and isinstance(n.targets[0], ast.Name) \
@@ -74,6 +86,9 @@ def _from_expansion(expr, fn, depth=0):
                     and not _contains(n.value, expr) and _from_expansion_assign(n, fn, depth + 1):
                 return True
     return False
+
+
+_ALL_MODS = []
 
 
 def _contains(root, node):
@@ -98,8 +113,10 @@ def _from_expansion_assign(assign, fn, depth):
 
 # ----------------------------------------------------------------------------- evaluation
 class Eval:
-    def __init__(self, fn, collect=None):
+    def __init__(self, fn, collect=None, ctx=None):
         self.fn, self.collect = fn, collect
+        self.ctx = ctx                    # context flags (free boolean names of the predicate): name -> assumed value
+        self.ctx_seen = set()
 
     def ev(self, n, env, fn, depth=0):
         if depth > 8:
@@ -114,6 +131,10 @@ class Eval:
             try:
                 v = P.lit(n, n._mod if hasattr(n, "_mod") else fn.mod, fn.cls if fn else None)
             except P.NotLit:
+                if self.collect is not None or (self.ctx is not None and n.id in self.ctx):
+                    # a free name used as a truth value: the context flag ("this element is in default context")
+                    self.ctx_seen.add(n.id)
+                    return True if self.ctx is None else self.ctx[n.id]
                 raise Unmodelled(f"name `{n.id}`")
             return tuple(v) if isinstance(v, (list, frozenset, set)) else v
         if isinstance(n, ast.Attribute):
@@ -286,12 +307,13 @@ def rule_project_agree(res, mods, und):
              "same predicate: each filter is evaluated over a finite abstract domain of attributes (every field takes the "
              "constants any sibling compares it with, a fresh value and None; facets present / absent) and the truth tables "
              "are compared; the minority site is reported with the attribute on which they differ", floor=3)
+    _ALL_MODS[:] = list(mods)
     cands = []
     for mod in mods:
         for fn, var, preds, node, negated in _filters(mod):
             col = Collector()
+            ev = Eval(fn, col)
             try:
-                ev = Eval(fn, col)
                 for p in preds:
                     ev.ev(p, {var: AbsAttr({}, {})}, fn)
             except Unmodelled as e:
@@ -301,7 +323,7 @@ def rule_project_agree(res, mods, und):
                 continue
             if "nodefault" not in col.facets:
                 continue
-            cands.append((mod, fn, var, preds, node, negated, col))
+            cands.append((mod, fn, var, preds, node, negated, col, sorted(ev.ctx_seen)))
     if len(cands) < 2:
         return
     fields, facets = {}, set()
@@ -318,19 +340,33 @@ def rule_project_agree(res, mods, und):
     if len(points) > 200000:
         und.add("R-PROJECT-AGREE", "domain", cands[0][0].rel, 1, f"abstract domain too large ({len(points)} points)")
         return
-    tables = []
-    for mod, fn, var, preds, node, negated, col in cands:
-        ev = Eval(fn)
+    tables, kept_cands = [], []
+    for cand in cands:
+        mod, fn, var, preds, node, negated, col, ctxnames = cand
+        if len(ctxnames) > 3:
+            und.add("R-PROJECT-AGREE", f"{mod.name}.{fn.qual}", mod.rel, node.lineno, "too many free names in the projection predicate")
+            return
+        found = {}
         try:
-            row = []
-            for a in points:
-                keep = all(ev.truth(ev.ev(p, {var: a}, fn)) for p in preds)
-                row.append((not keep) if negated else keep)
+            for vals in itertools.product((True, False), repeat=len(ctxnames)):
+                ev = Eval(fn, ctx=dict(zip(ctxnames, vals)))
+                row = []
+                for a in points:
+                    keep = all(ev.truth(ev.ev(p, {var: a}, fn)) for p in preds)
+                    row.append((not keep) if negated else keep)
+                if not all(row):                      # under this context the filter really projects
+                    found.setdefault(tuple(row), vals)
         except Unmodelled as e:
             und.add("R-PROJECT-AGREE", f"{mod.name}.{fn.qual}", mod.rel, node.lineno,
                     f"projection predicate outside the modelled fragment: {e}")
             return
-        tables.append(tuple(row))
+        if len(found) != 1:
+            und.add("R-PROJECT-AGREE", f"{mod.name}.{fn.qual}", mod.rel, node.lineno,
+                    f"the filter is a projection under {len(found)} different settings of its context flags {ctxnames}")
+            return
+        tables.append(next(iter(found)))
+        kept_cands.append(cand[:7])
+    cands = kept_cands
     groups = {}
     for c, t in zip(cands, tables):
         groups.setdefault(t, []).append(c)
